@@ -310,6 +310,23 @@ fn new_runtype_class(constructor: &str, mut args: Vec<Expr>, original_runtype: &
     new_runtime_class(constructor, args)
 }
 
+// { "__proto__": v } sets the prototype of the table; { ["__proto__"]: v } declares the property
+fn table_key(key: &str) -> PropName {
+    let name = Str {
+        span: DUMMY_SP,
+        value: key.into(),
+        raw: None,
+    };
+    if key == "__proto__" {
+        PropName::Computed(ComputedPropName {
+            span: DUMMY_SP,
+            expr: Expr::Lit(Lit::Str(name)).into(),
+        })
+    } else {
+        PropName::Str(name)
+    }
+}
+
 fn runtype_metadata_arg(schema: &Runtype) -> Expr {
     match schema.metadata.description.as_ref() {
         Some(description) => Expr::Object(ObjectLit {
@@ -518,11 +535,7 @@ fn runtype_any_of_discriminated(
 
                 PropOrSpread::Prop(
                     Prop::KeyValue(KeyValueProp {
-                        key: PropName::Str(Str {
-                            span: DUMMY_SP,
-                            value: current_key.clone().into(),
-                            raw: None,
-                        }),
+                        key: table_key(&current_key),
                         value: print_runtype(&schema, named_schemas, ctx).into(),
                     })
                     .into(),
@@ -562,11 +575,7 @@ fn runtype_any_of_discriminated(
 
                 PropOrSpread::Prop(
                     Prop::KeyValue(KeyValueProp {
-                        key: PropName::Str(Str {
-                            span: DUMMY_SP,
-                            value: current_key.clone().into(),
-                            raw: None,
-                        }),
+                        key: table_key(&current_key),
                         value: print_runtype(&schema, named_schemas, ctx).into(),
                     })
                     .into(),
@@ -1115,11 +1124,7 @@ fn build_parsers_input(
             .map(|(key, value)| {
                 PropOrSpread::Prop(
                     Prop::KeyValue(KeyValueProp {
-                        key: PropName::Str(Str {
-                            span: DUMMY_SP,
-                            value: key.into(),
-                            raw: None,
-                        }),
+                        key: table_key(&key),
                         value: value.into(),
                     })
                     .into(),
@@ -1148,11 +1153,7 @@ fn named_runtypes(named_schemas: &[NamedSchema], ctx: &mut PrintContext) -> Expr
             .map(|(key, value)| {
                 PropOrSpread::Prop(
                     Prop::KeyValue(KeyValueProp {
-                        key: PropName::Str(Str {
-                            span: DUMMY_SP,
-                            value: ctx.print_rt_name(&key).into(),
-                            raw: None,
-                        }),
+                        key: table_key(&ctx.print_rt_name(&key)),
                         value: value.into(),
                     })
                     .into(),
